@@ -4,6 +4,9 @@ Deductive part (every state of the tables, every reason):
   * RemoteDBusObject.notifyOnDisconnect / connectionLost: the registered callbacks are invoked exactly once each, in
     registration order (ghost invocation log == log . callbacks), for every callback list
   * DBusObjectHandler.connectionLost: connectionLost of every live proxy is invoked exactly once (ghost log == log . proxies)
+  * connect() and its inner function try_next_ep: the first endpoint tried is the first one listed; each retry takes exactly
+    the LAST element of the (reversed) remaining list - i.e. the next one in listed order - removes it, and chains itself as
+    the errback of that attempt (and only as errback); with no endpoint left the connect Deferred is failed once
   * DBusClientConnection.connectionLost:
       established (busName set): the connection's disconnect callbacks are invoked once each in order; for an arbitrary
       serial s0, if it was pending its Deferred is failed (exactly once: it was unfired, see PC) and its timer cancelled;
@@ -34,9 +37,32 @@ def errback(self, fail): pass
 def cancel(self): pass
 def _failed(self, err): pass
 def h_connectionLost(self, reason): pass
+def addErrback(self, eb): pass
 
 
 class Models09(TxModels):
+    def __init__(self, world):
+        super().__init__(world)
+        from txdbus import client
+        self.instantiators[client.DBusClientFactory] = self.new_factory
+        self.register(addErrback, lambda I, a, k: self.add_errback(I, a[0], a[1]))
+        self.instantiators[client.ConnectError] = lambda I, a, k: VExc(client.ConnectError, [])      # twisted's exception class: an opaque failure value
+
+    def new_factory(self, I, a, k):
+        # DBusClientFactory(): a factory with a fresh, unfired connect Deferred
+        f = I.ctx.new_ref(F)
+        d = I.ctx.new_ref(D)
+        I.ctx.heap_write(d, 'called', VBool(False))
+        I.ctx.heap_write(d, 'g_failed', VBool(False))
+        I.ctx.heap_write(f, 'd', d)
+        return f
+
+    def add_errback(self, I, d, eb):
+        if not hasattr(I.ctx, 'chain') or I.ctx.chain is None:
+            I.ctx.chain = []
+        I.ctx.chain.append((None, eb))
+        return d
+
     def call_other(self, I, f, args, kwargs):
         if isinstance(f, VRef):
             stub = I.world.method(f.cls, '__call__')
@@ -60,11 +86,11 @@ def run_bounded(tier, seed):
 def build_world():
     from txdbus import client, objects
     w = World()
-    w.add_class(ClassSpec('Ghost', None, {'cb_log': ListT(Ref(CB)), 'proxy_log': ListT(Ref(P))}))
+    w.add_class(ClassSpec('Ghost', None, {'cb_log': ListT(Ref(CB)), 'proxy_log': ListT(Ref(P)), 'tried_log': ListT(Ref('Endpoint')), 'eps': ListT(Ref('Endpoint'))}))
     w.add_class(ClassSpec(CB, None, {}, methods={'__call__': __call__}))
-    w.add_class(ClassSpec(D, None, {'called': BOOL, 'g_failed': BOOL, 'g_reason': OPAQUE}, methods={'errback': errback}))
+    w.add_class(ClassSpec(D, None, {'called': BOOL, 'g_failed': BOOL, 'g_reason': OPAQUE}, methods={'errback': errback, 'addErrback': addErrback}))
     w.add_class(ClassSpec(T, None, {'g_active': BOOL}, methods={'cancel': cancel}))
-    w.add_class(ClassSpec(F, None, {'d': Ref(D)}, methods={'_failed': _failed}))
+    w.add_class(ClassSpec(F, client.DBusClientFactory, {'d': Ref(D)}, methods={'_failed': _failed}))
     w.add_class(ClassSpec(P, objects.RemoteDBusObject, {'_disconnectCBs': Opt(ListT(Ref(CB)))}))
     w.add_class(ClassSpec(H, objects.DBusObjectHandler, {'_weakProxies': ListT(Ref(P)), 'g_lost': INT}))
     w.add_class(ClassSpec(C, client.DBusClientConnection, {
@@ -79,7 +105,7 @@ def build_world():
              requires=lambda cx: [('a Deferred fires once', z3.Not(cx.old(cx.args['self']).called))],
              modifies=lambda cx: [(cx.args['self'], D + '.called'), (cx.args['self'], D + '.g_failed'), (cx.args['self'], D + '.g_reason')],
              ensures=lambda cx: [('failed-with-the-reason', z3.And(cx.new(cx.args['self']).called, cx.new(cx.args['self']).g_failed,
-                                                                   cx.new(cx.args['self']).g_reason == cx.args['fail'].term))], assumed=True)
+                                                                   cx.new(cx.args['self']).g_reason == cx.args['fail'].term if getattr(cx.args['fail'], 'term', None) is not None else z3.BoolVal(True)))], assumed=True)
     contract(w, 'iface.DelayedCall.cancel', {'self': Ref(T)}, fn=cancel,
              requires=lambda cx: [('only an active timer is cancelled', cx.old(cx.args['self']).g_active)],
              modifies=lambda cx: [(cx.args['self'], T + '.g_active')],
@@ -233,7 +259,64 @@ def build_world():
              locals_types={},
              loops={1: LoopSpec(invariant=pending_inv(1), ghost_index='_k1'), 2: LoopSpec(invariant=cb_inv, ghost_index='_k2'),
                     3: LoopSpec(invariant=pending_inv(3), ghost_index='_k3')})
+    # ---- connect(): the endpoint walk
+    w.add_class(ClassSpec('Endpoint', None, {}, methods={'connect': ep_connect}))
+    w.add_class(ClassSpec('Failure', None, {}, methods={'getErrorMessage': getErrorMessage}))
+    contract(w, 'iface.Endpoint.connect', {'self': Ref('Endpoint'), 'factory': Ref(F)}, fn=ep_connect, result=Ref(D),
+             modifies=lambda cx: [(GHOST, 'Ghost.tried_log')],
+             ensures=lambda cx: [('attempt-logged', cx.new(GHOST).tried_log.seqs[0] == z3.Concat(cx.old(GHOST).tried_log.seqs[0], z3.Unit(cx.a('self'))))],
+             assumed=True)
+    contract(w, 'iface.Failure.getErrorMessage', {'self': Ref('Failure')}, fn=getErrorMessage, result=STR, assumed=True)
+    contract(w, 'txdbus.endpoints.getDBusEndpoints', {'reactor': OPAQUE, 'busAddress': STR, 'client': BOOL}, result=ListT(Ref('Endpoint')),
+             ensures=lambda cx: [('the endpoints of the address list, in listed order', cx.result.seqs[0] == cx.old(GHOST).eps.seqs[0])], assumed=True)
+    contract(w, 'txdbus.client.DBusClientFactory.getConnection', {'self': Ref(F)}, result=Ref(D),
+             ensures=lambda cx: [('the connect Deferred', cx.result.term == cx.old(cx.args['self']).d)])
+
+    def next_post(cx):
+        lst0 = cx.arg0['eplist'][0] if getattr(cx, 'arg0', None) and 'eplist' in cx.arg0 else None
+        old = lst0 if lst0 is not None else cx.args['eplist'].seqs[0]
+        new = cx.args['eplist'].seqs[0]
+        n = z3.Length(old)
+        dd = VRef(cx.a('d'), D)
+        shape = getattr(cx.ctx, 'shape', None)
+        return [('a remaining endpoint: exactly the LAST of the (reversed) list is tried and removed, and a failure of the attempt comes back to this function',
+                 z3.Implies(n >= 1, z3.And(cx.new(GHOST).tried_log.seqs[0] == z3.Concat(cx.old(GHOST).tried_log.seqs[0], z3.Unit(old[n - 1])),
+                                           old == z3.Concat(new, z3.Unit(old[n - 1])),
+                                           z3.BoolVal(shape == [(None, 'try_next_ep')]),
+                                           cx.new(dd).called == cx.old(dd).called))),
+                ('no endpoint left: the connect Deferred fails, nothing is tried',
+                 z3.Implies(n == 0, z3.And(cx.new(dd).called, cx.new(dd).g_failed, cx.new(GHOST).tried_log.seqs[0] == cx.old(GHOST).tried_log.seqs[0])))]
+
+    contract(w, 'nested:connect.try_next_ep', {'err': Opt(Ref('Failure')), 'eplist': ListT(Ref('Endpoint')), 'f': Ref(F), 'd': Ref(D)},
+             fn=client.connect, nested='try_next_ep', mutates=('eplist',), epilogue=chain_shape09,
+             requires=lambda cx: [('a failure is at hand when the list is exhausted', z3.Or(z3.Length(cx.args['eplist'].seqs[0]) >= 1, z3.BoolVal(not isinstance(cx.args['err'], VNone)))),
+                                  ('the connect Deferred has not fired', z3.Not(cx.old(VRef(cx.a('d'), D)).called))],
+             ensures=next_post,
+             modifies=lambda cx: [(GHOST, 'Ghost.tried_log'), ('*', D + '.called'), ('*', D + '.g_failed'), ('*', D + '.g_reason')])
+
+    def connect_post(cx):
+        eps = cx.old(GHOST).eps.seqs[0]
+        r = cx.result
+        dd = cx.new(r)
+        return [('the first endpoint tried is the first one listed; nothing else yet',
+                 z3.Implies(z3.Length(eps) >= 1, z3.And(cx.new(GHOST).tried_log.seqs[0] == z3.Concat(cx.old(GHOST).tried_log.seqs[0], z3.Unit(eps[0])), z3.Not(dd.called)))),
+                ('no valid address: the returned Deferred has failed', z3.Implies(z3.Length(eps) == 0, z3.And(dd.called, dd.g_failed)))]
+
+    contract(w, 'txdbus.client.connect', {'reactor': OPAQUE, 'busAddress': STR}, result=Ref(D), ensures=connect_post,
+             modifies=lambda cx: [(GHOST, 'Ghost.tried_log'), ('*', D + '.called'), ('*', D + '.g_failed'), ('*', D + '.g_reason'), ('*', F + '.d')])
     return w
+
+
+def ep_connect(self, factory): pass
+def getErrorMessage(self): pass
+
+
+def chain_shape09(I):
+    ctx = I.ctx
+    chain = getattr(ctx, 'chain', None)
+    def nm(f):
+        return None if f is None or isinstance(f, VNone) else getattr(f, 'name', '?').split('.')[-1]
+    ctx.shape = None if chain is None else [(nm(cb), nm(eb)) for cb, eb in chain]
 
 
 def count_handler(I):
@@ -250,7 +333,7 @@ def others_same(cx, d):
 
 def build(tier='quick'):
     w = build_world()
-    targets = ['txdbus.objects.RemoteDBusObject.notifyOnDisconnect', 'txdbus.objects.RemoteDBusObject.connectionLost',
+    targets = ['nested:connect.try_next_ep', 'txdbus.client.connect', 'txdbus.client.DBusClientFactory.getConnection', 'txdbus.objects.RemoteDBusObject.notifyOnDisconnect', 'txdbus.objects.RemoteDBusObject.connectionLost',
                'txdbus.objects.DBusObjectHandler.connectionLost', 'txdbus.client.DBusClientConnection.connectionLost']
     sp = Spec('C09', w, lambda world: Models09(world), targets, replay=replay,
               bounded=[{'name': 'connection-history', 'run': run_bounded}],
@@ -258,7 +341,8 @@ def build(tier='quick'):
               assumed=['PC (established by the C08 contracts): a pending entry has an unfired Deferred and an active timer; two pending serials share neither; the connect Deferred is none of them',
                        'disconnect callbacks do not raise (a raising callback would stop the loop: outside the property)',
                        'list(WeakSet) is the list of live proxies; garbage collection of proxies is not modelled',
-                       'connect(): the endpoint walk (nested closure re-entered from errbacks), getDBusEndpoints address parsing and the path connectionAuthenticated -> Hello -> _cbGotHello are covered by the bounded part only'],
+                       'connect(): each step of the endpoint walk is proved (the inner function as a target of its own); that the steps compose over a history of failures, getDBusEndpoints address parsing and the path connectionAuthenticated -> Hello -> _cbGotHello are covered by the bounded part only',
+                       'list.reverse() on a list of unknown length: uninterpreted rev with |rev(q)| = |q| and the two end elements (Python list semantics)'],
               notes=['the ghost logs (callback invocations, proxy notifications) are appended by the interface stub / by a ghost epilogue of the verified function'],
               explanation='connectionLost of the connection, the object handler and the proxies verified for every table state: exactly-once callbacks in order, every outstanding call failed once with its timer cancelled, connect Deferred failed iff not yet fired; connection histories through the real objects on top',
               design_ref='DESIGN.md 4/C09')
